@@ -491,6 +491,27 @@ func diskTwinP1(s *scen.P1Set, start *envfs.FS, o, oa *scen.P1Obs, c *p1Case, r 
 			r.Violatef("disk-run-touched-the-working-directory", "the working directory (not the set's) changed: %v", d)
 		}
 	}()
+	// beside the set lie leftovers of ANOTHER set whose names differ from this set's volume names only in case (S.P01
+	// beside s.p01, sorting before it): on a case-sensitive filesystem they are other files and must be left alone
+	upper := map[string][]byte{}
+	if other, oerr := scen.GetP1(scen.P1Config{Sizes: []int{6, 3}, Volumes: len(s.VolPaths) + 1}, 4711); oerr == nil {
+		for v, op := range other.VolPaths {
+			name := strings.ToUpper(filepath.Base(scen.VolPath(s.Index, v+1)))
+			upper[filepath.Join(filepath.Dir(index), name)] = other.FS0.Files[op]
+		}
+		for p, b := range upper {
+			if _, err := os.Lstat(p); err == nil {
+				delete(upper, p) // a case-insensitive filesystem, or a name that is upper case already
+				continue
+			}
+			ioutil.WriteFile(p, b, 0644)
+		}
+	}
+	defer func() {
+		for p := range upper {
+			os.Remove(p)
+		}
+	}()
 	var vres par1.VerifyResult
 	var verr, rerr error
 	var rres par1.RepairResult
@@ -527,6 +548,12 @@ func diskTwinP1(s *scen.P1Set, start *envfs.FS, o, oa *scen.P1Obs, c *p1Case, r 
 	sort.Strings(b)
 	if strings.Join(a, "|") != strings.Join(b, "|") {
 		r.Violatef("disk-run-differs-from-in-memory-run:repaired-paths", "real directory: %v; in-memory: %v", a, b)
+	}
+	for p, b := range upper {
+		if got, err := ioutil.ReadFile(p); err != nil || !bytes.Equal(got, b) {
+			r.Violatef("disk-run-touched-a-look-alike-file", "%s (another set's volume, named like one of this set's but in upper case) was changed or removed", p)
+		}
+		os.Remove(p)
 	}
 	if d := envfs.Diff(readTree(root), o.After); len(d) > 0 {
 		r.Violatef("disk-run-differs-from-in-memory-run:final-directory", "after Repair the real directory differs from the in-memory one in %v", d)
